@@ -124,7 +124,7 @@ CHECKS = {
     "C11": {
         "text": "Random expression trees over the frozen supported grammar (arithmetic, integer/real powers, elementary and special functions, heaviside/comparisons, Mod, constants, user functions, indexed variables, aliases) with domain guards so that the formula is well-conditioned by construction, rendered to text in several syntactic shapes and evaluated by an independent NumPy tree evaluator; compared elementwise (64 eps x forward error bound) with ScalarExpression call, numpy and numba functions (real JIT + interpreted-source pass), single_arg, TensorExpression, fields from expressions on all grid classes, evaluate(), parse_number; symbolic derivatives against forward-mode derivatives of the tree. Exploration: held on all generated cases.",
         "ref": "DESIGN.md section 4, C11",
-        "note": "Only the grammar both routes accept (erf numpy-only); derivatives only for differentiable trees of depth <= 3; sympy.simplify time-outs (> 6 s) are skipped; real float64 arguments.",
+        "note": "Only the grammar both routes accept (erf numpy-only); derivatives only for differentiable trees of depth <= 3; sympy.simplify time-outs (> 6 s) are skipped; real float64 arguments. Failures that sympy alone reproduces without repository code (same exception from parse_expr/simplify/lambdify, free dummy symbol) are counted as rejected; a value change by sympy.simplify alone is the listed known finding (KNOWN_FINDINGS.txt).",
         "technique": "grammar-based property-based testing against an independent evaluator (Hypothesis)",
     },
 }
